@@ -470,6 +470,12 @@ func (c *Client) monitor(ctx context.Context) {
 						}
 						dlog.Printf("namespaces updated")
 
+						// the subscriptions are still attached to the restored
+						// session: republish what was missed and resume publishing
+						subsToRepublish = c.SubscriptionIDs()
+						subsToRecreate = nil
+						availableSeqs = map[uint32][]uint32{}
+
 						action = restoreSubscriptions
 
 					case recreateSession:
